@@ -10,6 +10,9 @@ import (
 
 type Bool struct{ v atomic.Bool }
 
+// Peek reads the value without a scheduling point (for harness oracles and state keys).
+func (b *Bool) Peek() bool { return b.v.Load() }
+
 func (b *Bool) Load() bool       { gate.ShimPoint("Bool.Load", nil); return b.v.Load() }
 func (b *Bool) Store(x bool)     { gate.ShimPoint("Bool.Store", nil); b.v.Store(x) }
 func (b *Bool) Swap(x bool) bool { gate.ShimPoint("Bool.Swap", nil); return b.v.Swap(x) }
